@@ -19,6 +19,8 @@ import (
 	customante "github.com/KiraCore/sekai/app/ante"
 	appparams "github.com/KiraCore/sekai/app/params"
 	custodytypes "github.com/KiraCore/sekai/x/custody/types"
+	"github.com/KiraCore/sekai/x/gov"
+	"github.com/KiraCore/sekai/x/tokens"
 	feetypes "github.com/KiraCore/sekai/x/feeprocessing/types"
 	govtypes "github.com/KiraCore/sekai/x/gov/types"
 	stakingtypes "github.com/KiraCore/sekai/x/staking/types"
@@ -207,6 +209,7 @@ type Cfg struct {
 	MaxSend  uint64
 	Custody  []Cust
 	MinRew   uint64
+	ViaGov   bool // token infos, freeze lists, execution fees and the allowed-message list are written through the REAL proposal handlers
 }
 
 // Cust: custody record of an account (UsePassword / UseWhiteList / UseLimits off).
@@ -227,13 +230,40 @@ func (e *Env) Apply(ctx sdk.Context, c *Cfg) error {
 		}
 	}
 	for _, t := range c.Tokens {
+		if c.ViaGov {
+			// sometimes the token exists already with other values (update path of the handler), sometimes not (create path)
+			if len(t.Denom)%2 == 0 {
+				pre := tokenstypes.NewTokenInfo(t.Denom, "adr20", t.Rate.Add(sdk.OneDec()), !t.FeeEnabled, sdk.ZeroInt(), sdk.ZeroInt(), sdk.NewDecWithPrec(10, 2), sdk.OneInt(), false, false,
+					strings.ToUpper(t.Denom), t.Denom, "", 6, "", "", "", 0, sdk.ZeroInt(), "", false, "", "")
+				if err := app.TokensKeeper.UpsertTokenInfo(ctx, pre); err != nil {
+					return err
+				}
+			}
+			h := tokens.NewApplyUpsertTokenInfosProposalHandler(app.TokensKeeper)
+			if err := h.Apply(ctx, 1, &tokenstypes.ProposalUpsertTokenInfo{Denom: t.Denom, TokenType: "adr20", FeeRate: t.Rate, FeeEnabled: t.FeeEnabled, Supply: sdk.ZeroInt(), SupplyCap: sdk.ZeroInt(),
+				StakeCap: sdk.NewDecWithPrec(10, 2), StakeMin: sdk.OneInt(), Symbol: strings.ToUpper(t.Denom), Name: t.Denom, Decimals: 6, MintingFee: sdk.ZeroInt()}, sdk.ZeroDec()); err != nil {
+				return err
+			}
+			continue
+		}
 		info := tokenstypes.NewTokenInfo(t.Denom, "adr20", t.Rate, t.FeeEnabled, sdk.ZeroInt(), sdk.ZeroInt(), sdk.NewDecWithPrec(10, 2), sdk.OneInt(), false, false,
 			strings.ToUpper(t.Denom), t.Denom, "", 6, "", "", "", 0, sdk.ZeroInt(), "", false, "", "")
 		if err := app.TokensKeeper.UpsertTokenInfo(ctx, info); err != nil {
 			return err
 		}
 	}
-	app.TokensKeeper.SetTokenBlackWhites(ctx, tokenstypes.TokensWhiteBlack{Whitelisted: c.White, Blacklisted: c.Black})
+	if c.ViaGov {
+		app.TokensKeeper.SetTokenBlackWhites(ctx, tokenstypes.TokensWhiteBlack{})
+		h := tokens.NewApplyWhiteBlackChangeProposalHandler(app.TokensKeeper)
+		if err := h.Apply(ctx, 2, &tokenstypes.ProposalTokensWhiteBlackChange{IsBlacklist: true, IsAdd: true, Tokens: append([]string{}, c.Black...)}, sdk.ZeroDec()); err != nil {
+			return err
+		}
+		if err := h.Apply(ctx, 3, &tokenstypes.ProposalTokensWhiteBlackChange{IsBlacklist: false, IsAdd: true, Tokens: append([]string{}, c.White...)}, sdk.ZeroDec()); err != nil {
+			return err
+		}
+	} else {
+		app.TokensKeeper.SetTokenBlackWhites(ctx, tokenstypes.TokensWhiteBlack{Whitelisted: c.White, Blacklisted: c.Black})
+	}
 	p := app.CustomGovKeeper.GetNetworkProperties(ctx)
 	p.EnableTokenBlacklist = c.EnBlack
 	p.EnableTokenWhitelist = c.EnWhite
@@ -257,10 +287,23 @@ func (e *Env) Apply(ctx sdk.Context, c *Cfg) error {
 	for _, k := range keys {
 		st.Delete(k)
 	}
-	for _, f := range c.Exec {
-		app.CustomGovKeeper.SetExecutionFee(ctx, govtypes.ExecutionFee{TransactionType: f.Type, ExecutionFee: f.Execution, FailureFee: f.Failure})
+	if c.ViaGov {
+		var fees []govtypes.ExecutionFee
+		for _, f := range c.Exec {
+			fees = append(fees, govtypes.ExecutionFee{TransactionType: f.Type, ExecutionFee: f.Execution, FailureFee: f.Failure})
+		}
+		if err := gov.NewApplySetExecutionFeesProposalHandler(app.CustomGovKeeper).Apply(ctx, 4, &govtypes.ProposalSetExecutionFees{ExecutionFees: fees}, sdk.ZeroDec()); err != nil {
+			return err
+		}
+		if err := gov.NewApplySetPoorNetworkMessagesProposalHandler(app.CustomGovKeeper).Apply(ctx, 5, &govtypes.SetPoorNetworkMessagesProposal{Messages: c.PoorMsgs}, sdk.ZeroDec()); err != nil {
+			return err
+		}
+	} else {
+		for _, f := range c.Exec {
+			app.CustomGovKeeper.SetExecutionFee(ctx, govtypes.ExecutionFee{TransactionType: f.Type, ExecutionFee: f.Execution, FailureFee: f.Failure})
+		}
+		app.CustomGovKeeper.SavePoorNetworkMessages(ctx, &govtypes.AllowedMessages{Messages: c.PoorMsgs})
 	}
-	app.CustomGovKeeper.SavePoorNetworkMessages(ctx, &govtypes.AllowedMessages{Messages: c.PoorMsgs})
 	// custody records: clear those of the named accounts, then set
 	for _, a := range e.Accs {
 		app.CustodyKeeper.DropCustodyRecord(ctx, a.Addr)
@@ -342,7 +385,7 @@ func (c *Cfg) JSON() map[string]interface{} {
 	return map[string]interface{}{"tokens": ts, "blacklist": c.Black, "whitelist": c.White, "enable_blacklist": c.EnBlack,
 		"enable_whitelist": c.EnWhite, "foreign_fees": c.Foreign, "min_tx_fee": fmt.Sprint(c.MinFee), "max_tx_fee": fmt.Sprint(c.MaxFee),
 		"execution_fees": ex, "validators": c.NVals, "min_validators": fmt.Sprint(c.MinVals), "poor_network_msgs": c.PoorMsgs,
-		"poor_network_max_bank_send": fmt.Sprint(c.MaxSend), "custody": c.Custody, "min_custody_reward": fmt.Sprint(c.MinRew)}
+		"poor_network_max_bank_send": fmt.Sprint(c.MaxSend), "custody": c.Custody, "min_custody_reward": fmt.Sprint(c.MinRew), "written_through_proposal_handlers": c.ViaGov}
 }
 
 // ---------------------------------------------------------------- messages
@@ -941,4 +984,60 @@ func SplitOutputs(r *hx.Rng, cs sdk.Coins, people []string) []Out {
 		}
 	}
 	return res
+}
+
+// ---------------------------------------------------------------- the shared freeze-configuration sweep
+
+// FreezeCase: one corner of {blacklist switch, whitelist switch} x {blacklist: empty / the token /
+// another token / both} x {whitelist: the same four} x {token: native, foreign fee-enabled, foreign
+// not fee-enabled}.  Used by every clause of C09 and C14 (send, multi-send, custody send, Ethereum
+// native send, fee coin).
+type FreezeCase struct {
+	Cfg   *Cfg
+	Token string
+	Fee   sdk.Coin // a fee in Token whose value is 150..500 at the registered rate
+	Tag   string
+}
+
+func FreezeSweep(base func() *Cfg) []FreezeCase {
+	var out []FreezeCase
+	other := "frozen"
+	mk := func(v int, tok string, flip bool) []string {
+		switch v {
+		case 1:
+			return []string{tok}
+		case 2:
+			return []string{other}
+		case 3:
+			if flip {
+				return []string{tok, other}
+			}
+			return []string{other, tok}
+		}
+		return nil
+	}
+	for sw := 0; sw < 4; sw++ {
+		for bl := 0; bl < 4; bl++ {
+			for wl := 0; wl < 4; wl++ {
+				for ti, tok := range []string{"ukex", "ubtc", "xeth"} {
+					c := base()
+					c.Tokens = []Tok{{"ukex", sdk.NewDec(1), true}, {"ubtc", sdk.NewDec(10), true}, {"xeth", sdk.NewDecWithPrec(1, 1), false}, {"frozen", sdk.NewDecWithPrec(1, 1), true}}
+					c.EnBlack, c.EnWhite = sw&1 != 0, sw&2 != 0
+					c.Black, c.White = mk(bl, tok, (bl+wl)%2 == 0), mk(wl, tok, (bl+wl)%2 == 1)
+					c.Foreign = true
+					c.ViaGov = (sw+bl+wl+ti)%3 == 0
+					fee := sdk.NewInt64Coin("ukex", 150)
+					switch tok {
+					case "ubtc":
+						fee = sdk.NewInt64Coin("ubtc", 20)
+					case "xeth":
+						fee = sdk.NewInt64Coin("xeth", 3000)
+					}
+					out = append(out, FreezeCase{Cfg: c, Token: tok, Fee: fee,
+						Tag: fmt.Sprintf("freeze-sweep:black_on=%v:white_on=%v:blacklist=%d:whitelist=%d:%s", c.EnBlack, c.EnWhite, bl, wl, tok)})
+				}
+			}
+		}
+	}
+	return out
 }
